@@ -453,7 +453,11 @@ func (r *Result) Finish() int {
 		if e, ok := known[f.Key()]; ok {
 			f.Known = true
 			nKnown++
-			fmt.Printf("KNOWN-FINDING: property=%s %s [%s @ %s] %s\n", f.Property, e.What, f.Rule, f.Construct, f.Pos)
+			msg := f.Msg
+			if len(msg) > 200 {
+				msg = msg[:200] + "…"
+			}
+			fmt.Printf("KNOWN-FINDING: property=%s %s [%s @ %s] %s: %s\n", f.Property, e.What, f.Rule, f.Construct, f.Pos, msg)
 			continue
 		}
 		unknown = append(unknown, *f)
